@@ -27,6 +27,8 @@ pub fn compress_fastest<M: Matcher>(
     // First check to see if run length encoding can be used for the entire block
     if uncompressed_data.iter().all(|x| uncompressed_data[0].eq(x)) {
         let rle_byte = uncompressed_data[0];
+        #[cfg(killingspark_zstd_rs_verif)]
+        crate::verif::emit(crate::verif::ENC, "enc_rle", &[u64::from(block_size)]);
         state.matcher.commit_space(uncompressed_data);
         state.matcher.skip_matching();
         let header = BlockHeader {
@@ -46,6 +48,18 @@ pub fn compress_fastest<M: Matcher>(
         // If compression does not shrink the block, store it raw instead.
         // Also preserve the format guard that compressed blocks must not
         // exceed the maximum block size.
+        #[cfg(killingspark_zstd_rs_verif)]
+        crate::verif::emit(
+            crate::verif::ENC,
+            "enc_choice",
+            &[
+                u64::from(block_size),
+                compressed_size as u64,
+                (compressed_size >= block_size as usize || compressed_size > MAX_BLOCK_SIZE as usize)
+                    as u64,
+                compressed.get(0).map(|b| u64::from(*b & 3)).unwrap_or(9),
+            ],
+        );
         if compressed_size >= block_size as usize || compressed_size > MAX_BLOCK_SIZE as usize {
             // The compressed block is discarded, so the decoder never sees a huffman table
             // it may have carried. Forget it instead of referencing it in a later block.
